@@ -18,7 +18,7 @@ OWNED = {"C14_Lockstep"}
 
 
 def cfg(universe, part, nparts, maxctx, full, lenbonus):
-    s = "SPECIFICATION Spec\nCONSTANT U <- %s\nCONSTANTS Part = %d NParts = %d MaxCtx = %d FullCross = %s\n" % (
+    s = "SPECIFICATION Spec\nCONSTANT UName = \"%s\"\nCONSTANTS Part = %d NParts = %d MaxCtx = %d FullCross = %s\n" % (
         universe, part, nparts, maxctx, "TRUE" if full else "FALSE")
     if lenbonus:
         s += "CONSTANT LenBonus <- LB%s\n" % ("m1" if lenbonus < 0 else str(lenbonus))
